@@ -9,3 +9,7 @@ import ThriftVerif.Props.C20
 #print axioms Props.C20.reject_iff
 #print axioms Props.C20.step_reject_local
 #print axioms Props.C20.naming_style_keeps_initialisms
+#print axioms Props.C20.cmdline_transparent
+#print axioms Props.C20.cmdline_adds_nothing_unless_nested
+#print axioms Props.C20.cmdline_value_keeps_equals
+#print axioms Props.C20.nested_forces_slim
